@@ -287,8 +287,38 @@ def install(E):
             z3.And(z3.Or(Sset[s], hp.isend(Erel, s)), z3.Not(z3.Exists([d], Erel[s, d]))),
             z3.And(K[s], V(c.h0, k)[s], z3.Not(z3.Exists([d], z3.And(edge(c.h0, k, s, d), K[d]))))))
 
+    def sub_cut_edges(c, path):
+        # every induced transition is in the list E handed to the constructor
+        s, d = X('s'), X('d')
+        Erel = path.heap.rel_of(path.env['E'].t)
+        K, k = c.V.x.mem, c.self.t
+        return hp.FA([s, d], z3.Implies(z3.And(edge(c.h0, k, s, d), K[s], K[d]), Erel[s, d]), [succ(c.h0, k, s)[d]])
+
+    def sub_cut_states(c, path):
+        # every state handed to the constructor (explicitly or as an end point of E) is a retained state
+        s = X('s')
+        h = path.heap
+        Sset, Erel = h.set_of(path.env['S'].t), h.rel_of(path.env['E'].t)
+        K, k = c.V.x.mem, c.self.t
+        return hp.FA([s], z3.Implies(z3.Or(Sset[s], hp.isend(Erel, s)), z3.And(K[s], V(c.h0, k)[s])),
+                     [Sset[s], hp.isend(Erel, s)])
+
+    def sub_cut_retained_are_given(c, path):
+        s = X('s')
+        Sset = path.heap.set_of(path.env['S'].t)
+        K, k = c.V.x.mem, c.self.t
+        return hp.FA([s], z3.Implies(z3.And(K[s], V(c.h0, k)[s]), Sset[s]), [K[s], Sset[s]])
+
+    def sub_cut_E_is_induced(c, path):
+        s, d = X('s'), X('d')
+        Erel = path.heap.rel_of(path.env['E'].t)
+        K, k = c.V.x.mem, c.self.t
+        return hp.FA([s, d], z3.Implies(Erel[s, d], z3.And(edge(c.h0, k, s, d), K[s], K[d])), [Erel[s, d]])
+
     reg(Contract(
         'Kripke.get_substructure', 'kripke', [('self', 'kripke'), ('V', 'setlike')], ret='kripke',
         requires=lambda c: [('wf', wfK(c.h0, c.self.t))],
         ensures=sub_ens, raises={'RuntimeError': sub_raise},
+        hints={'cuts': {'raises:RuntimeError:only_if': [sub_cut_edges, sub_cut_states],
+                        'raises:RuntimeError:if': [sub_cut_retained_are_given, sub_cut_E_is_induced]}},
  touches={'dd', 'dv', 'sets', 'fld__next', 'fld__labels', 'fld_S0'}, owner='C14'))
